@@ -14,8 +14,11 @@ import ast
 from ..core import AnalysisError, finish, unparse
 from ..dataflow import Flow, chain, call_name
 from ..poly import Poly
+from ..terms import Terms, mk_cmp, is_none, plain, match, V, ANY, show, \
+    subterms, alternatives, stores, method_calls, lookup, owner_terms, \
+    owner_views
 from ..util import calls_in, qual, formals, returns_of, raises_of, \
-    raise_name, has_fact
+    raise_name, has_fact, bind
 
 NER = "rig.place_and_route.route.ner"
 
@@ -140,130 +143,208 @@ def r1_leaves(program, rep):
 
 def r2_repair(program, rep):
     fn = program.get(NER + ":route")
-    fl = Flow(fn)
-    cfg = fl.cfg
+    T = Terms(fn)
+    cfg = T.cfg
     av = calls_in(fn, "avoid_dead_links")
-    ok = len(av) == 1 and [unparse(a) for a in av[0].args] == [
-        "root", "machine", "wrap_around"]
+    ok = len(av) == 1
     if ok:
-        f = fl.facts(cfg.node_containing(av[0]))
-        ok = has_fact(f, "route_has_dead_links(root, machine)", True)
-        # and nothing but that test decides: the false edge skips only the
-        # repair
+        n = cfg.node_containing(av[0])
+        a = [T.term(x, n) for x in av[0].args]
+        MACH = ("param", "machine")
+        ok = len(a) >= 2 and a[1] == MACH
+        if ok:
+            test = ("callv", ("global", "route_has_dead_links"),
+                    (a[0], MACH), ())
+            ok = any(p and t[:4] == test for t, p in T.all_facts(n))
+            ok = ok and any(plain(x)[0] == "comp" and plain(x)[1][0] == "call"
+                            and plain(x)[1][1] == ("global", "ner_net")
+                            for x in alternatives(a[0]))
     rep.check(ok, "C03-R2", qual(fn), "a tree with a dead link is repaired "
               "(avoid_dead_links on the same root and machine) before "
               "leaves are attached", construct="repair call", node=fn)
     rh = program.get(NER + ":route_has_dead_links")
-    rfl = Flow(rh)
-    trues = [r for r in returns_of(rh) if isinstance(r.value, ast.Constant)
-             and r.value.value is True]
-    ok = len(trues) == 1
-    if ok:
-        f = rfl.facts(rfl.cfg.node_of(trues[0]))
-        lps = [n for n in ast.walk(rh) if isinstance(n, ast.For)]
-        ok = has_fact(f, "(x, y, route) not in machine", True) and \
-            len(lps) == 2 and unparse(lps[0].iter) == "root.traverse()" and \
-            unparse(lps[0].target) == "(direction, (x, y), routes)" and \
-            unparse(lps[1].iter) == "routes" and \
-            not any(isinstance(n, (ast.Break, ast.Continue))
-                    for n in ast.walk(rh))
-    rep.check(ok, "C03-R2", qual(rh), "route_has_dead_links is true for "
-              "every (chip, out direction) of the tree that is not in the "
-              "machine (all nodes, all directions)",
-              construct="dead link detection", node=rh)
+    R = Terms(rh)
+    rp = formals(rh)
+    ROOT, MACH = ("param", rp[0]), ("param", rp[1])
+    IT1 = None
+    for c in calls_in(rh, "traverse"):
+        t = R.term(c, R.cfg.node_containing(c), _comp_env(R, c))
+        if t[0] == "callv" and t[1] == ("attr", ROOT, "traverse"):
+            IT1 = t
+    if IT1 is None:
+        raise AnalysisError("route_has_dead_links: traversal of the tree")
+    E1 = ("elem", IT1)
+    IT2 = ("comp", E1, 2)
+    hop = ("tuple", ("comp", ("comp", E1, 1), 0), ("comp", ("comp", E1, 1), 1),
+           ("elem", IT2))
+    missing = mk_cmp("In", hop, MACH)
+    ok = True
+    n_ret = 0
+    for r in returns_of(rh):
+        if r.value is None:
+            continue
+        n = R.cfg.node_of(r)
+        v, pol = R.cond(r.value, n, True)
+        n_ret += 1
+        if v == ("const", True):
+            ok = ok and (missing, False) in R.all_facts(n)
+            continue
+        extra = [] if v == ("const", False) else [(v, not pol)]
+        none = [q for q in R.quantified(n, extra) if q[0] == "none" and
+                q[1] == ("nest", IT1, IT2) and q[2] == [(missing, False)]]
+        ok = ok and bool(none)
+    rep.check(ok and n_ret >= 1, "C03-R2", qual(rh), "route_has_dead_links "
+              "is false only when every (chip, out direction) of the tree "
+              "- all nodes, all directions - is in the machine",
+              construct="dead link detection", node=rh,
+              fail="route_has_dead_links can answer False without having "
+                   "looked at every (x, y, direction) of the tree: a tree "
+                   "through a dead chip or link is left unrepaired")
+
+
+def _comp_env(T, expr):
+    env = {}
+    comps = []
+    p = getattr(expr, "_parent", None)
+    while p is not None and p is not T.fn:
+        if isinstance(p, (ast.ListComp, ast.SetComp, ast.GeneratorExp,
+                          ast.DictComp)):
+            comps.append(p)
+        p = getattr(p, "_parent", None)
+    for comp in reversed(comps):
+        n = T.cfg.node_containing(comp)
+        for g in comp.generators:
+            it = T.term(g.iter, n, env)
+            T._bind_target(g.target, T._elem(it), env)
+    return env
 
 
 def r3_growth(program, rep):
+    """A* and the disconnecting copy, decided on value terms and canonical
+    facts (which value is stored / attached where, under which tests)."""
     fn = program.get(NER + ":a_star")
     inst = qual(fn)
-    fl = Flow(fn)
-    cfg = fl.cfg
-    st = [s for s in ast.walk(fn) if isinstance(s, ast.Assign) and
-          isinstance(s.targets[0], ast.Subscript) and
-          chain(s.targets[0].value) == "visited" and
-          chain(s.targets[0].slice) == "neighbour"]
-    ok = len(st) == 1
+    T = Terms(fn)
+    cfg = T.cfg
+    ps = formals(fn)        # sink, heuristic_source, sources, machine, wrap
+    SINK, SOURCES, MACH = [("param", ps[i]) for i in (0, 2, 3)]
+    LINK = ("elem", ("global", "Links"))
+    hops = [x for x in stores(T) if x[4][0] == "tuple" and len(x[4]) == 3
+            and x[4][1] == LINK]
+    ok = len(hops) == 1
+    N = NODE = VIS = None
     if ok:
-        node = cfg.node_of(st[0])
-        f = fl.facts(node)
-        ok = has_fact(f, "(neighbour[0], neighbour[1], neighbour_link) not "
-                         "in machine", False) and \
-            has_fact(f, "neighbour in visited", False)
+        node, st, VIS, N, val = hops[0]
+        NODE = val[2]
+        f = T.all_facts(node)
+        reach = ("tuple", T._comp(N, 0, 2), T._comp(N, 1, 2), LINK)
+        ok = (mk_cmp("In", reach, MACH), True) in f and \
+            (mk_cmp("In", N, VIS), False) in f
     rep.check(ok, "C03-R3", inst, "A* extends to a neighbour only over a "
               "link that is in the machine at the neighbour's end (the "
               "direction packets will travel) and only to unvisited chips",
               construct="A* growth guard", node=fn)
-    ok2 = ok and unparse(st[0].value) == "(neighbour_link, node)"
-    hp = calls_in(fn, "heappush")
-    ok2 = ok2 and len(hp) == 1 and \
-        cfg.dominates(cfg.node_of(st[0]), cfg.node_containing(hp[0])) and \
-        unparse(hp[0].args[1]) == "(heuristic(neighbour), neighbour)"
+    ok2 = ok
+    if ok2:
+        hp = [c for c in calls_in(fn, "heappush") if len(c.args) == 2]
+        ok2 = len(hp) == 1
+        if ok2:
+            hn = cfg.node_containing(hp[0])
+            item = T.term(hp[0].args[1], hn)
+            ok2 = cfg.dominates(hops[0][0], hn) and item[0] == "tuple" and \
+                len(item) == 3 and item[2] == N and \
+                item[1][0] in ("call", "callv") and item[1][2] == (N,)
+            pops = [st_ for st_ in subterms(NODE)
+                    if st_[0] == "callv" and show(st_[1]).endswith("heappop")]
+            ok2 = ok2 and len(pops) == 1 and NODE == ("comp", pops[0], 1)
     rep.check(ok2, "C03-R3", inst, "the hop recorded for the neighbour is "
-              "(the tested link, the node it leads to)",
-              construct="A* recorded hop", node=fn)
+              "(the tested link, the node taken from the queue), and the "
+              "neighbour is queued", construct="A* recorded hop", node=fn)
     # R4: neighbour arithmetic
-    nd = [d for d in fl.defs if d.var == "neighbour" and d.mode == "assign"]
-    vd = [d for d in fl.defs if d.var == "vector" and d.mode == "assign"]
-    ok4 = len(nd) == 1 and len(vd) == 1 and isinstance(nd[0].value,
-                                                       ast.Tuple)
-    detail = ""
+    ok4 = N is not None and N[0] == "tuple" and len(N) == 3
+    detail = show(N) if N is not None else "?"
     if ok4:
-        e0, e1 = nd[0].value.elts
-        n0 = nd[0].node
-        x = fl.sym(e0, n0)
-        y = fl.sym(e1, n0)
-
-        def s(t):
-            return fl.sym(ast.parse(t, mode="eval").body, n0)
-        wx = fl.mod(s("node[0]") + s("vector[0]"), s("machine.width"))
-        wy = fl.mod(s("node[1]") + s("vector[1]"), s("machine.height"))
-        detail = "(%r, %r)" % (x, y)
-        ok4 = x == wx and y == wy and unparse(vd[0].value) == \
-            "neighbour_link.opposite.to_vector()"
+        VEC = None
+        for st_ in subterms(N):
+            if st_[0] in ("call", "callv") and st_[1][0] == "attr" and \
+                    st_[1][2] == "to_vector":
+                VEC = st_
+        ok4 = VEC is not None and VEC[1][1] == ("attr", LINK, "opposite")
+        if ok4:
+            for i, dim in ((0, "width"), (1, "height")):
+                want_a = ("binop", "Mod", ("binop", "Add",
+                                           T._comp(NODE, i, 2),
+                                           T._comp(VEC, i, 2)),
+                          ("attr", MACH, dim))
+                want_b = ("binop", "Mod", ("binop", "Add",
+                                           T._comp(VEC, i, 2),
+                                           T._comp(NODE, i, 2)),
+                          ("attr", MACH, dim))
+                ok4 = ok4 and N[1 + i] in (want_a, want_b)
     rep.check(ok4, "C03-R4", inst, "neighbour = (node + vector of the "
               "opposite link) taken modulo (width, height) respectively - "
               "the chip from which `neighbour_link` leads to `node`",
-              construct="A* neighbour %s" % detail, node=fn,
+              construct="A* neighbour", node=fn,
               fail="the neighbour coordinate is %s: not (node + "
                    "opposite-link vector) modulo (machine.width, "
                    "machine.height); on a non-square machine hops between "
-                   "non-adjacent chips are produced" % detail)
+                   "non-adjacent chips are produced" % detail[:200])
     lp = [n for n in ast.walk(fn) if isinstance(n, ast.For) and
-          unparse(n.iter) == "Links"]
-    rep.check(len(lp) == 1 and chain(lp[0].target) == "neighbour_link",
-              "C03-R3", inst, "all six links are tried from every node",
-              construct="A* link loop", node=fn)
-    # path reconstruction follows the recorded hops back to the sink
-    t = unparse(fn)
-    okp = "path = [(Routes(visited[selected_source][0]), selected_source)]" \
-        in t and "while visited[path[-1][1]][1] != sink" in t and \
-        "path.append((direction, node))" in t
-    rep.check(okp, "C03-R3", inst, "the path returned follows the recorded "
-              "hops from the selected source back to the sink",
+          T.term(n.iter, cfg.loop_head[id(n)]) == ("global", "Links")]
+    rep.check(len(lp) == 1 and not any(
+        isinstance(x, ast.Break) for x in ast.walk(lp[0])),
+        "C03-R3", inst, "all six links are tried from every node",
+        construct="A* link loop", node=fn)
+    # every entry of the returned path pairs a chip with the link recorded
+    # for that chip
+    okp = False
+    rets = [r for r in returns_of(fn) if r.value is not None]
+    if len(rets) == 1 and VIS is not None:
+        PATH = T.term(rets[0].value)
+        entries = []
+        if PATH[0] == "new" and PATH[2][0] == "list":
+            entries += list(PATH[2][1:])
+        for n_, c, recv, args in method_calls(T, "append"):
+            if recv == PATH and len(args) == 1:
+                entries.append(args[0])
+        okp = len(entries) >= 2
+        for e in entries:
+            m = match(("tuple", ("call", ("global", "Routes"),
+                                 (("comp", ("item", VIS, V("x")), 0),), ()),
+                       V("x")), e)
+            okp = okp and m is not None
+        # ... each next chip is the predecessor recorded for the last one
+    rep.check(okp, "C03-R3", inst, "the path returned pairs every chip with "
+              "the link recorded for it when it was reached",
               construct="A* path", node=fn)
-    sel = [d for d in fl.defs if d.var == "selected_source" and
-           unparse(d.value) == "node"]
-    oks = len(sel) == 1 and has_fact(fl.facts(sel[0].node),
-                                     "node in sources", True)
+    oks = False
+    for b_ in T.binds:
+        if b_.mode == "assign" and b_.value is not None and NODE is not None \
+                and T.term(b_.value, b_.node) == NODE and \
+                (mk_cmp("In", NODE, SOURCES), True) in T.all_facts(b_.node):
+            oks = True
     rep.check(oks, "C03-R3", inst, "the search stops only at a chip of the "
               "permitted target set", construct="A* termination", node=fn)
     # copy_and_disconnect_tree
     cp = program.get(NER + ":copy_and_disconnect_tree")
-    cfl = Flow(cp)
-    ccfg = cfl.cfg
-    ap = [c for c in calls_in(cp, "append")
-          if unparse(call_name(c)[1]) == "new_parent.children"]
-    ad = [c for c in calls_in(cp, "add")
-          if chain(call_name(c)[1]) == "broken_links"]
-    okc = len(ap) == 1 and len(ad) == 1
+    C = Terms(cp)
+    MACH2 = ("param", formals(cp)[1])
+    att = [x for x in method_calls(C, "append")
+           if x[2][0] == "attr" and x[2][2] == "children" and len(x[3]) == 1
+           and x[3][0][0] == "tuple" and len(x[3][0]) == 3]
+    brk = [x for x in method_calls(C, "add") if len(x[3]) == 1 and
+           x[3][0][0] == "tuple" and len(x[3][0]) == 3]
+    okc = len(att) == 1 and len(brk) == 1
     if okc:
-        g = "direction in links_between(new_parent.chip, new_node.chip, " \
-            "machine)"
-        fa = cfl.facts(ccfg.node_containing(ap[0]))
-        fb = cfl.facts(ccfg.node_containing(ad[0]))
-        okc = has_fact(fa, g, True) and has_fact(fb, g, False) and \
-            unparse(ap[0].args[0]) == "(direction, new_node)" and \
-            unparse(ad[0].args[0]) == "(new_parent.chip, new_node.chip)"
+        an, _, recv, (item,) = att[0]
+        NP, DIR, NN = recv[1], item[1], item[2]
+        guard = mk_cmp("In", DIR, ("call", ("global", "links_between"),
+                                   (("attr", NP, "chip"),
+                                    ("attr", NN, "chip"), MACH2), ()))
+        bn, _, _, (pair,) = brk[0]
+        okc = (guard, True) in C.all_facts(an) and \
+            (guard, False) in C.all_facts(bn) and \
+            pair == ("tuple", ("attr", NP, "chip"), ("attr", NN, "chip"))
     rep.check(okc, "C03-R3", qual(cp), "a child is attached iff its own hop "
               "direction is one of the working links from the parent's chip "
               "to the child's chip; otherwise the pair is recorded as "
@@ -273,28 +354,54 @@ def r3_growth(program, rep):
                    "among links_between(parent, child, machine): where two "
                    "different links join the same pair of chips (2xN, 1xN "
                    "tori) a dead link stays on the tree")
-    nn = [d for d in cfl.defs if d.var == "new_node" and d.mode == "assign"]
-    okd = len(nn) == 2
-    for d in nn:
-        f = cfl.facts(d.node)
-        if unparse(d.value) == "RoutingTree(old_node.chip)":
-            okd = okd and has_fact(f, "old_node.chip in machine", True)
-        elif unparse(d.value) == "new_parent":
-            okd = okd and has_fact(f, "old_node.chip in machine", False)
-        else:
-            okd = False
-    reg = [s for s in ast.walk(cp) if isinstance(s, ast.Assign) and
-           unparse(s.targets[0]) == "new_lookup[new_node.chip]"]
-    okd = okd and len(reg) == 1 and has_fact(
-        cfl.facts(ccfg.node_of(reg[0])), "old_node.chip in machine", True)
+    okd = False
+    if okc:
+        OLD = None
+        for st_ in [y for x in alternatives(NN) for y in subterms(x)]:
+            if st_[0] == "callv" and st_[1] == ("global", "RoutingTree") \
+                    and len(st_[2]) == 1 and st_[2][0][0] == "attr" and \
+                    st_[2][0][2] == "chip":
+                OLD = st_[2][0][1]
+        alive = mk_cmp("In", ("attr", OLD, "chip"), MACH2) if OLD else None
+        n_new = n_up = 0
+        okd = OLD is not None
+        for b_ in C.binds:
+            if b_.mode != "assign" or b_.value is None:
+                continue
+            v = C.term(b_.value, b_.node)
+            if v[0] == "callv" and v[1] == ("global", "RoutingTree"):
+                n_new += 1
+                okd = okd and (alive, True) in C.all_facts(b_.node)
+            elif v == NP and b_.var == getattr(
+                    att[0][1].args[0].elts[1], "id", None):
+                n_up += 1
+                okd = okd and (alive, False) in C.all_facts(b_.node)
+        reg = [x for x in stores(C) if x[4][0] == "callv" and
+               x[4][1] == ("global", "RoutingTree") and
+               x[3] == ("attr", x[4], "chip")]
+        okd = okd and n_new == 1 and n_up == 1 and len(reg) == 1 and \
+            (alive, True) in C.all_facts(reg[0][0])
     rep.check(okd, "C03-R3", qual(cp), "dead chips are dropped from the "
               "copy (their children move up to the parent); only live "
               "chips get nodes", construct="copy dead chips", node=cp)
-    q = [c for c in calls_in(cp, "append")
-         if chain(call_name(c)[1]) == "to_visit"]
-    okq = len(q) == 1 and unparse(q[0].args[0]) == \
-        "(new_node, child_direction, child)" and \
-        "for child_direction, child in old_node.children" in unparse(cp)
+    okq = False
+    if okc:
+        q = [x for x in method_calls(C, ("append", "extend"))
+             if x[2][0] == "new" and x[3]]
+        for n_, c, recv, args in q:
+            item = args[0]
+            if c.func.attr == "extend":
+                built = C.filtered(item)
+                if not built or len(built) != 1 or built[0][2]:
+                    continue
+                it, item = built[0][0], built[0][1]
+            E = None
+            m = match(("tuple", V("nn"), ("comp", V("E"), 0),
+                       ("comp", V("E"), 1)), item)
+            if m is not None and m["E"][0] == "elem" and \
+                    m["E"][1][0] == "attr" and m["E"][1][2] == "children" \
+                    and m["nn"] == NN:
+                okq = True
     rep.check(okq, "C03-R3", qual(cp), "every child of every node is "
               "visited with its own direction", construct="copy traversal",
               node=cp)
@@ -304,36 +411,47 @@ def r3_growth(program, rep):
 def r5_reconnect(program, rep):
     fn = program.get(NER + ":avoid_dead_links")
     inst = qual(fn)
-    fl = Flow(fn)
-    cfg = fl.cfg
-    lps = [n for n in ast.walk(fn) if isinstance(n, ast.For) and
-           unparse(n.iter) == "broken_links"]
-    if len(lps) != 1:
-        raise AnalysisError("avoid_dead_links: orphan loop")
-    lp = lps[0]
-    child = chain(lp.target.elts[1])
+    T = Terms(fn)
+    cfg = T.cfg
+    ps = formals(fn)
+    cd = calls_in(fn, "copy_and_disconnect_tree")
+    if len(cd) != 1:
+        raise AnalysisError("avoid_dead_links: copy_and_disconnect_tree")
+    COPY = T.term(cd[0])
+    ROOT, LOOKUP, BROKEN = [T._comp(COPY, i, 3) for i in range(3)]
+    okc = [T.term(a) for a in cd[0].args] == [("param", ps[0]),
+                                              ("param", ps[1])]
+    rets = [T.term(r.value) for r in returns_of(fn) if r.value is not None]
+    okc = okc and rets == [("tuple", ROOT, LOOKUP)]
+    PARENT, CHILD = ("comp", ("elem", BROKEN), 0), ("comp", ("elem", BROKEN),
+                                                    1)
+    SUB = ("item", LOOKUP, CHILD)
     st = calls_in(fn, "a_star")
     ok = len(st) == 1
-    tgt = None
+    EXCL = None
     if ok:
-        a = st[0].args
-        ok = chain(a[0]) == child and chain(a[1]) == chain(lp.target.elts[0])
-        t = a[2]
-        if isinstance(t, ast.Call) and call_name(t)[0] == "difference" and \
-                unparse(call_name(t)[1]) == "set(lookup)":
-            tgt = chain(t.args[0])
-        ok = ok and tgt is not None
+        sn = cfg.node_containing(st[0])
+        a = [T.term(x, sn) for x in st[0].args]
+        ok = len(a) >= 3 and a[0] == CHILD and a[1] == PARENT
+        if ok:
+            m = match(("call", ("attr", ("call", ("global", "set"),
+                                         (plain(LOOKUP),), ()),
+                                "difference"),
+                       (V("x"),), ()), plain(a[2]))
+            ok = m is not None
+            if ok:
+                EXCLp = m["x"]
+                EXCL = a[2][2][0]
     rep.check(ok, "C03-R5", inst, "each orphan is reconnected by a search "
               "from its root towards its former parent, to any node of the "
               "tree except a set of excluded chips",
               construct="a_star arguments", node=fn)
     okx = False
-    if tgt:
-        ds = [d for d in fl.defs if d.var == tgt and d.mode == "assign"]
-        n_star = cfg.node_containing(st[0])
-        okx = len(ds) == 1 and _inside(ds[0].node.ast, lp) and \
-            unparse(ds[0].value) == "set((c.chip for c in lookup[%s]))" % \
-            child and [d.id for d in fl.reaching(tgt, n_star)] == [ds[0].id]
+    if ok:
+        want = ("call", ("global", "set"),
+                (("genexp", ("attr", ("elem", SUB), "chip"),
+                  ((SUB, ()),)),), ())
+        okx = plain(EXCL) == plain(want)
     rep.check(okx, "C03-R5", inst, "the excluded chips are the chips of the "
               "orphan's own sub-tree, recomputed from the live tree for "
               "every orphan (earlier repairs may have grafted other orphans "
@@ -343,34 +461,49 @@ def r5_reconnect(program, rep):
                    "after one orphan has been grafted into another, the "
                    "second can be reconnected to its own descendant - a "
                    "cycle detached from the root")
-    # detach-before-attach of an existing node: its old parent is looked for
-    # among ALL nodes of the tree (the parent may itself already have been
-    # severed from the orphan earlier along the same detour), removed and the
-    # search stops; only then is the node attached to the detour
-    aps = [c for c in calls_in(lp, "append")
-           if unparse(call_name(c)[1]) == "last_node.children" and
-           "new_node" in unparse(c.args[0])]
-    rms = [c for c in calls_in(lp, "remove")]
-    okd = len(aps) == 1 and len(rms) == 1
-    dom = ""
-    if okd:
-        an = cfg.node_containing(aps[0])
-        rn = cfg.node_containing(rms[0])
-        sl = rms[0]._parent
-        while sl is not None and not isinstance(sl, ast.For):
-            sl = sl._parent
-        dom = unparse(sl.iter) if sl is not None else ""
-        whole = dom in ("lookup.values()", "itervalues(lookup)",
-                        "six.itervalues(lookup)", "list(lookup.values())")
-        f = fl.facts(rn)
-        found = any(p and chain(c) is not None for c, p, _ in f)
-        ex = [n for n in cfg.nodes if n.kind == "assume" and
-              unparse(n.ast) == "(x, y) not in %s" % tgt and not n.polarity]
-        okd = whole and found and len(ex) == 1 and \
-            cfg.dominates(ex[0], rn) and cfg.reaches(rn, an) and \
-            not cfg.reaches(an, rn, avoid=[cfg.loop_head[id(
-                _loop_of(aps[0]))]]) and \
-            unparse(rms[0]) == "node.children.remove(dn[0])"
+    # detach-before-attach of an existing node
+    okd = False
+    dom = "?"
+    attach = [x for x in method_calls(T, "append")
+              if x[2][0] == "attr" and x[2][2] == "children" and
+              len(x[3]) == 1 and x[3][0][0] == "tuple" and
+              len(x[3][0]) == 3 and any(
+                  lookup(y) is not None and lookup(y)[0] == LOOKUP
+                  for y in alternatives(x[3][0][2]))]
+    rms = []
+    for c in ast.walk(fn):
+        if isinstance(c, ast.Call) and isinstance(c.func, ast.Attribute) \
+                and c.func.attr == "remove" and len(c.args) == 1:
+            for view in owner_views(T, c):
+                rn_in = view.cfg.node_containing(c)
+                recv = view.term(c.func.value, rn_in)
+                # the statement of avoid_dead_links that performs it
+                site = c if view is T else view.call
+                rms.append((c, view, recv, site))
+    grafts = [x for x in attach if x[3][0][2] != SUB]
+    if len(grafts) == 1 and len(rms) == 1 and EXCL is not None:
+        an = grafts[0][0]
+        c, view, recv, site = rms[0]
+        rn = cfg.node_containing(site)
+        dom = show(recv[1][1]) if recv[0] == "attr" and \
+            recv[1][0] == "elem" else show(recv)
+        whole = recv[0] == "attr" and recv[2] == "children" and \
+            recv[1] == ("elem", ("values", LOOKUP))
+        CHIP = None
+        for t, p_ in T.all_facts(rn):
+            if t[0] == "cmp" and t[1] == "In" and t[3] == EXCL and p_:
+                CHIP = t[2]
+        lp = _loop_of(grafts[0][1])
+        okd = whole and CHIP is not None and cfg.reaches(rn, an) and \
+            not cfg.reaches(an, rn, avoid=[cfg.loop_head[id(lp)]])
+        if okd:
+            # what is removed is the edge to the node being grafted
+            NEW = ("item", LOOKUP, CHIP)
+            item = view.term(c.args[0], view.cfg.node_containing(c))
+            edges = [st_ for st_ in subterms(item)
+                     if st_[0] == "cmp" and st_[1] == "Eq" and
+                     NEW in (st_[2], st_[3])]
+            okd = bool(edges)
     rep.check(okd, "C03-R5", inst, "a node of the orphan that the detour "
               "passes through is first detached from its previous parent, "
               "which is searched for among every node of the tree",
@@ -384,21 +517,19 @@ def r5_reconnect(program, rep):
                "and every node is registered in the lookup (so the search "
                "over lookup.values() finds it)")
     # new nodes are registered; the orphan root is attached at the end
-    t = unparse(fn)
-    okn = "lookup[x, y] = new_node" in t and \
-        "last_node.children.append((last_direction, lookup[%s]))" % child \
-        in t and "last_node = lookup[path[0][1]]" in t
+    okn = False
+    if EXCL is not None:
+        regs = [x for x in stores(T) if x[2] == LOOKUP and
+                x[4][0] == "callv" and x[4][1] == ("global", "RoutingTree")
+                and x[4][2] == (x[3],)]
+        okn = len(regs) == 1 and (mk_cmp("In", regs[0][3], EXCL), False) in \
+            T.all_facts(regs[0][0])
+        final = [x for x in attach if x[3][0][2] == SUB]
+        okn = okn and len(final) == 1 and not _inside(
+            final[0][1], _loop_of(grafts[0][1]) if grafts else None)
     rep.check(okn, "C03-R5", inst, "new detour nodes are registered in the "
-              "lookup; the detour starts at the reached tree node and ends "
-              "by attaching the orphan's root", construct="detour splice",
-              node=fn)
-    cd = calls_in(fn, "copy_and_disconnect_tree")
-    okc = len(cd) == 1 and [unparse(a) for a in cd[0].args] == [
-        "root", "machine"] and unparse(cd[0]._parent.targets[0]) == \
-        "(root, lookup, broken_links)"
-    rets = returns_of(fn)
-    okc = okc and len(rets) == 1 and unparse(rets[0].value) == \
-        "(root, lookup)"
+              "lookup; the detour ends by attaching the orphan's root",
+              construct="detour splice", node=fn)
     rep.check(okc, "C03-R5", inst, "the repair works on the disconnecting "
               "copy and returns its root with its lookup",
               construct="repair frame", node=fn)
@@ -415,50 +546,134 @@ def _loop_of(node):
 def r6_truncation(program, rep):
     fn = program.get(NER + ":ner_net")
     inst = qual(fn)
-    fl = Flow(fn)
-    cfg = fl.cfg
-    cut = [d for d in fl.defs if d.var == "ldf" and d.mode == "assign" and
-           isinstance(d.value, ast.Subscript)]
-    ok = len(cut) == 1
+    T = Terms(fn)
+    fl = T.flow
+    cfg = T.cfg
+    ps = formals(fn)      # source, destinations, width, height, ...
+    SRC = ("param", ps[0])
+    ldfs = [c for c in calls_in(fn, "longest_dimension_first")]
+    if len(ldfs) != 1:
+        raise AnalysisError("ner_net: longest_dimension_first")
+    LDF0 = T.term(ldfs[0])
+    rets = [T.term(r.value) for r in returns_of(fn) if r.value is not None]
+    ROUTE = rets[0][2] if len(rets) == 1 and rets[0][0] == "tuple" and \
+        len(rets[0]) == 3 else None
+    cuts = [b_ for b_ in T.binds if b_.mode == "assign" and
+            isinstance(b_.value, ast.Subscript) and
+            isinstance(b_.value.slice, ast.Slice) and
+            T.term(b_.value.value, b_.node) == LDF0]
+    ok = len(cuts) == 1 and ROUTE is not None
     if ok:
-        d = cut[0]
-        f = fl.facts(d.node)
-        lo = fl.sym(d.value.slice.lower, d.node)
-        I = fl.symvar("i", d.node)
-        ok = has_fact(f, "(x, y) in route", True) and lo == I + 1 and \
-            d.value.slice.upper is None
+        d = cuts[0]
+        sl = d.value.slice
         lp = d.node.ast._parent
         while lp is not None and not isinstance(lp, ast.For):
             lp = lp._parent
-        ok = ok and lp is not None and \
-            unparse(lp.iter) == "reversed(ldf)" and \
-            unparse(lp.target) == "(direction, (x, y))"
-        decs = [x for x in fl.defs if x.var == "i" and x.mode == "aug" and
-                _inside(x.node.ast, lp)]
-        init = [x for x in fl.defs if x.var == "i" and x.mode == "assign"]
-        ok = ok and len(decs) == 1 and unparse(decs[0].value) == "i -= 1" \
-            and cfg.dominates(decs[0].node, d.node) and len(init) == 1 and \
-            unparse(init[0].value) == "len(ldf)"
-        nb = [x for x in fl.defs if x.var == "neighbour" and
-              unparse(x.value) == "(x, y)" and _inside(x.node.ast, lp)]
+        ok = lp is not None and sl.upper is None and sl.step is None and \
+            sl.lower is not None
+    if ok:
+        head = cfg.loop_head[id(lp)]
+        it = plain(T.term(lp.iter, head))
+        LO = T.term(sl.lower, d.node)
+        facts = T.all_facts(d.node)
+        on_tree = [t[2] for t, p_ in facts if p_ and t[0] == "cmp" and
+                   t[1] == "In" and t[3] == ROUTE]
+        L0 = plain(LDF0)
+        n_len = ("call", ("global", "len"), (L0,), ())
+        down = ("call", ("global", "range"),
+                (("binop", "Sub", n_len, ("const", 1)), ("const", -1),
+                 ("const", -1)), ())
+        if it == down:
+            # index scan from the far end
+            I = T.term(lp.target, head) if isinstance(
+                lp.target, ast.Name) else None
+            I = ("elem", T.term(lp.iter, head))
+            pt = ("comp", ("item", LDF0, I), 1)
+            ok = LO in (("binop", "Add", I, ("const", 1)),
+                        ("binop", "Add", ("const", 1), I)) and \
+                any(plain(x) == plain(pt) for x in on_tree)
+        elif it == ("call", ("global", "reversed"), (L0,), ()):
+            # element scan from the far end with a position counter
+            names = [n.id for n in ast.walk(sl.lower)
+                     if isinstance(n, ast.Name)]
+            ok = len(names) == 1
+            if ok:
+                v = names[0]
+                lo = fl.sym(sl.lower, d.node)
+                ok = lo == fl.symvar(v, d.node) + 1
+                decs = [x for x in fl.defs if x.var == v and x.mode == "aug"
+                        and _inside(x.node.ast, lp)]
+                init = [x for x in fl.defs if x.var == v and
+                        x.mode == "assign"]
+                others = [x for x in fl.defs if x.var == v and
+                          x.mode not in ("aug", "assign")]
+                ok = ok and len(decs) == 1 and not others and \
+                    isinstance(decs[0].value.op, ast.Sub) and \
+                    isinstance(decs[0].value.value, ast.Constant) and \
+                    decs[0].value.value.value == 1 and \
+                    cfg.dominates(decs[0].node, d.node) and \
+                    len(init) == 1 and not _inside(init[0].node.ast, lp) \
+                    and plain(T.term(init[0].value, init[0].node)) == n_len
+                E = T._elem(T.term(lp.iter, head))
+                ok = ok and any(plain(x) == plain(("comp", E, 1))
+                                for x in on_tree)
+        else:
+            raise AnalysisError("ner_net: the scan for the last point "
+                                "already on the tree is written in a form "
+                                "this rule does not know")
         brk = [n for n in ast.walk(lp) if isinstance(n, ast.Break)]
-        ok = ok and len(nb) == 1 and len(brk) == 1
+        nb = [b_ for b_ in T.binds if b_.mode == "assign" and
+              _inside(b_.node.ast, lp) and b_.value is not None and
+              any(plain(T.term(b_.value, b_.node)) == plain(x)
+                  for x in on_tree)]
+        ok = ok and len(brk) == 1 and len(nb) >= 1 and \
+            cfg.dominates(d.node, cfg.stmt_node.get(id(brk[0]), d.node)) \
+            if brk else False
     rep.check(ok, "C03-R6", inst, "the new path is cut just after its LAST "
               "point already on the tree (scanning from the far end), and "
               "continues from that tree node", construct="truncation",
               node=fn)
-    t = unparse(fn)
-    okn = "this_node = RoutingTree((x, y))" in t and \
-        "route[x, y] = this_node" in t and \
-        "last_node.children.append((Routes(direction), this_node))" in t and\
-        "last_node = route[neighbour]" in t and "last_node = this_node" in t
+    # every retained hop adds a fresh node under the previous one
+    okn = False
+    if ROUTE is not None:
+        for n_, c, recv, args in method_calls(T, "append"):
+            if not (recv[0] == "attr" and recv[2] == "children" and
+                    len(args) == 1 and args[0][0] == "tuple" and
+                    len(args[0]) == 3):
+                continue
+            THIS = args[0][2]
+            m = match(("callv", ("global", "RoutingTree"),
+                       (("comp", V("E"), 1),), (), ANY), THIS)
+            if m is None or m["E"][0] != "elem":
+                continue
+            E = m["E"]
+            hop_ok = plain(args[0][1]) == ("call", ("global", "Routes"),
+                                           (("comp", plain(E), 0),), ())
+            reg = [x for x in stores(T) if x[2] == ROUTE and x[4] == THIS
+                   and x[3] == ("comp", E, 1)]
+            LAST = recv[1]
+            alts = alternatives(LAST)
+            starts = [x for x in alts if lookup(x) is not None and
+                      lookup(x)[0] == ROUTE]
+            okn = hop_ok and len(reg) == 1 and THIS in alts and \
+                len(starts) == 1 and all(x in (THIS, starts[0], ("rec",))
+                                         for x in alts) and \
+                LDF0 in alternatives(E[1]) + [E[1]]
     rep.check(okn, "C03-R6", inst, "every retained hop adds a fresh node, "
               "registered in the tree's lookup, under the previous node with "
               "the hop's direction", construct="path splice", node=fn)
-    okr = "route = {source: RoutingTree(source)}" in t and \
-        "return (route[source], route)" in t and \
-        "ldf = longest_dimension_first(vector, neighbour, width, height)" \
-        in t and "neighbour = source" in t
+    okr = ROUTE is not None and rets[0][1] == ("item", ROUTE, SRC)
+    if okr:
+        init = plain(ROUTE)
+        okr = init == ("dict", ((SRC, ("call", ("global", "RoutingTree"),
+                                        (SRC,), ())),))
+        b_ = bind(ldfs[0], program.get(
+            "rig.place_and_route.route.utils:longest_dimension_first"))
+        n_ = cfg.node_containing(ldfs[0])
+        start = T.term(b_["start"], n_)
+        okr = okr and SRC in alternatives(start) and \
+            T.term(b_["width"], n_) == ("param", ps[2]) and \
+            T.term(b_["height"], n_) == ("param", ps[3])
     rep.check(okr, "C03-R6", inst, "the tree starts at the source; a path "
               "is walked longest-dimension-first from the chosen neighbour; "
               "the fallback neighbour is the source",
